@@ -20,6 +20,7 @@ import (
 	"sort"
 	"strings"
 	"sync"
+	"time"
 
 	"verif/harness/internal/casefile"
 	"verif/harness/internal/crashfs"
@@ -41,6 +42,10 @@ type POp struct {
 	File  string `json:"file,omitempty"`
 	Cut   int    `json:"cut,omitempty"`
 	Acked bool   `json:"acked,omitempty"`
+	// faultcrash: as fault, but the process dies after the first K file operations of the failed unit
+	// (writes, truncates of the rollback); A / C = bytes of the docs / meta block then in the files
+	A int `json:"a,omitempty"`
+	C int `json:"c,omitempty"`
 	Bulk int    `json:"bulk,omitempty"`
 	// conc: bulks submitted concurrently (start stagger in microseconds); Order = the order in
 	// which they reserved their docs offsets, read from the op log after the run
@@ -59,7 +64,9 @@ type Plan struct {
 	Bulks [][]PDoc `json:"bulks"`
 	Ops   []POp    `json:"ops"`
 	Seed  uint64   `json:"seed"` // run-time choices
-	Fault bool     `json:"fault,omitempty"` // fault history: bulks go through xbulk (no WaitIdle, see fault.go)
+	// the operations as generated (Ops is cut at the point where the store died or hung)
+	Planned []POp `json:"planned_ops,omitempty"`
+	Fault   bool  `json:"fault,omitempty"` // fault history: bulks go through xbulk (no WaitIdle, see fault.go)
 }
 
 func (d PDoc) mid() uint64 { return 1000 + uint64(d.ID) }
@@ -502,7 +509,14 @@ func fileLen(st *crashfs.State, kind string) int {
 
 // exec runs the plan; the resolved crash parameters are stored back into the plan.
 func exec(plan Plan, tmp string) (res *result) {
+	plan.Planned = nil
 	res = &result{plan: plan, bulks: make([]bulkBytes, len(plan.Bulks))}
+	res.plan.Ops = append([]POp(nil), plan.Ops...)
+	defer func() {
+		if len(res.obs) > 0 && res.obs[len(res.obs)-1].Died {
+			res.plan.Planned = plan.Ops
+		}
+	}()
 	root, err := os.MkdirTemp(tmp, "hC01-")
 	if err != nil {
 		res.err = err
@@ -585,11 +599,12 @@ func exec(plan Plan, tmp string) (res *result) {
 				res.plan.Ops[i].Kind = "restart"
 				return
 			}
-		case "fault":
+		case "fault", "faultcrash":
 			if x.child == nil {
 				op.Kind = "skip"
 				continue
 			}
+			x.child.Timeout = 12 * time.Second // a hang after a failed append must not take minutes
 			extra, _ := json.Marshal(faultReq{Docs: plan.Bulks[op.Bulk]})
 			x.calls = append(x.calls, "q")
 			r, err := x.child.Call(storectl.Req{Op: "plen", Extra: extra})
@@ -639,6 +654,54 @@ func exec(plan Plan, tmp string) (res *result) {
 			}
 			submitted(op.Bulk)
 			crashedBefore = true
+			if op.Kind == "faultcrash" {
+				if op.Acked {
+					op.Kind = "fault" // nothing failed from the store's point of view: report as such
+					continue
+				}
+				tr, calls, err := x.closeChild()
+				if err != nil {
+					return fail(err)
+				}
+				ws, err := x.account(tr, calls, len(calls)-1)
+				if err != nil {
+					return fail(err)
+				}
+				w := ws[len(calls)-1]
+				if op.K < 0 || op.K > len(w) {
+					op.K = x.r.Intn(len(w) + 1)
+				}
+				cut := len(tr.Ops)
+				if op.K < len(w) {
+					cut = w[op.K].idx
+				} else if len(w) > 0 {
+					cut = w[len(w)-1].idx + 1
+				}
+				st := tr.StateAt(cut)
+				if op.K < len(w) && w[op.K].p.Kind == "W" {
+					if op.T < 0 {
+						op.T = pickT(x.r, w[op.K].p.Len)
+					}
+					st.ApplyTorn(tr.Ops[w[op.K].idx], op.T)
+				} else {
+					op.T = 0
+				}
+				if op.KD < 0 {
+					op.KD = pickKeep(x.r, fileLen(st, "docs"))
+				}
+				if op.KM < 0 {
+					op.KM = pickKeep(x.r, fileLen(st, "meta"))
+				}
+				powerLoss(st, op.KD, op.KM)
+				op.A = fileLen(st, "docs") - int(fr.OffD)
+				op.C = fileLen(st, "meta") - int(fr.OffM)
+				if op.A < 0 || op.C < 0 {
+					return fail(fmt.Errorf("%w: crash state shorter than the durable files", errHarness))
+				}
+				if err := x.newDir(st); err != nil {
+					return fail(err)
+				}
+			}
 		case "conc":
 			if x.child == nil {
 				continue
@@ -841,6 +904,8 @@ func coqCase(res *result) (string, bool) {
 			fmt.Fprintf(&sb, "IBulk %d", o.Bulk)
 		case "fault":
 			fmt.Fprintf(&sb, "IFault %d %s %d %s", o.Bulk, casefile.Bool(o.File == "meta"), o.Cut, casefile.Bool(o.Acked))
+		case "faultcrash":
+			fmt.Fprintf(&sb, "IFaultCrash %d %d %d", o.Bulk, o.A, o.C)
 		case "obs":
 			sb.WriteString("IObs")
 		case "skip":
@@ -940,7 +1005,7 @@ func coqCase(res *result) (string, bool) {
 		if !res.bulks[i].known {
 			// a bulk that was never sent (history cut short) is harmless; one that was sent is not
 			for _, o := range res.plan.Ops {
-				if (o.Kind == "bulk" || o.Kind == "crashin" || o.Kind == "fault") && o.Bulk == i {
+				if (o.Kind == "bulk" || o.Kind == "crashin" || o.Kind == "fault" || o.Kind == "faultcrash") && o.Bulk == i {
 					return "", false
 				}
 				if o.Kind == "conc" {
@@ -1095,6 +1160,25 @@ func (g *gen) faulty() Plan {
 	if g.r.Bool() {
 		file = "meta"
 	}
+	if g.r.Chance(1, 3) {
+		// the process dies inside the failed unit or its rollback
+		p.Class = "fault-crash"
+		p.Ops = append(p.Ops, POp{Kind: "faultcrash", Bulk: fb, File: file, Cut: -1, K: -1, T: -1, KD: -1, KM: -1})
+		p.Ops = append(p.Ops, POp{Kind: "restart"})
+		n := g.r.Range(0, 2)
+		for j := 0; j < n; j++ {
+			if j == 0 && g.r.Chance(1, 3) {
+				p.Ops = append(p.Ops, POp{Kind: "bulk", Bulk: fb})
+				continue
+			}
+			p.Bulks = append(p.Bulks, g.bulk(3))
+			p.Ops = append(p.Ops, POp{Kind: "bulk", Bulk: len(p.Bulks) - 1})
+		}
+		if n > 0 {
+			p.Ops = append(p.Ops, POp{Kind: "restart"})
+		}
+		return p
+	}
 	p.Ops = append(p.Ops, POp{Kind: "fault", Bulk: fb, File: file, Cut: -1, T: 0, KD: 0, KM: 0})
 	if g.r.Chance(1, 2) {
 		p.Class = "fault-ingest"
@@ -1223,9 +1307,9 @@ func main() {
 			g.nextID = 0
 			plans = append(plans, g.concurrent())
 		}
-		nFault := 60
+		nFault := 90
 		if *tier == "thorough" {
-			nFault = 500
+			nFault = 700
 		}
 		for i := 0; i < nFault; i++ {
 			g.nextID = 0
@@ -1297,6 +1381,10 @@ func main() {
 			continue
 		}
 		term, ok := coqCase(res)
+		if !ok && len(res.obs) > 0 && res.obs[len(res.obs)-1].Died {
+			w.Violate("c01-store-died-or-hung", "the store died or stopped answering: "+res.obs[len(res.obs)-1].Why, res.plan)
+			continue
+		}
 		if !ok {
 			w.Violate("c01-bulk-without-block-writes", "a bulk was acknowledged without a docs block and a meta block being written", res.plan)
 			continue
